@@ -218,6 +218,8 @@ fn faults<F: Family>(p: &F::Packet, t: &mut Tape, ctx: &mut Ctx) -> CaseResult {
                     w.fault = Some((k, kind));
                     kind
                 };
+                // every third time the sink recovers after the one failed call: the encoder still has to stop there
+                w.fault_is_transient = shape_ctr % 3 == 0;
                 let (res, _) = sio::drive(F::encode_async(p, &mut w), len + wsteps.len() + 16);
                 match &res {
                     Err(e) if io_kind::<F>(e) == Some(want) => {}
@@ -246,9 +248,14 @@ fn faults<F: Family>(p: &F::Packet, t: &mut Tape, ctx: &mut Ctx) -> CaseResult {
                 continue;
             }
             let kind = kinds()[(i + k) % kinds().len()];
-            for zero in [false, true] {
+            for (zero, transient) in [(false, false), (true, false), (false, true), (true, true)] {
                 let ws = [WStep::Accept(3), WStep::Accept(1)];
                 let mut w = ScriptedWriter::new(&ws, blen);
+                // (transient: the sink fails that one call and accepts writes again - nothing may be written behind the hole)
+                w.fault_is_transient = transient;
+                if transient {
+                    ctx.label("streaming-encoder-transient-faults");
+                }
                 shape_ctr += 1;
                 w.fault_shape = (shape_ctr % sio::ERR_SHAPES as usize) as u8;
                 if shape_ctr % 2 == 0 {
@@ -265,7 +272,7 @@ fn faults<F: Family>(p: &F::Packet, t: &mut Tape, ctx: &mut Ctx) -> CaseResult {
                     Some(Err(e)) if e.kind() == want => {}
                     other => viol!("streaming body encoder with a failing sink ({:?}) at byte {} of {} returned {:?}", want, k, blen, other),
                 }
-                ensure!(w.out.len() <= k && body.starts_with(&w.out), "streaming body encoder wrote a non-prefix before failing at byte {}", k);
+                ensure!(w.out.len() <= k && body.starts_with(&w.out), "streaming body encoder into a sink that failed{} at byte {} of {} ({:?}): the sink holds {} ({} bytes), which is not a prefix of the body {} cut at the failure", if transient { " once (and would have accepted further writes)" } else { "" }, k, blen, want, hex_short(&w.out, 48), w.out.len(), hex_short(&body, 48));
             }
         }
         ctx.label("streaming-encoder-faults");
@@ -408,6 +415,7 @@ pub fn run(env: &mut Env) -> RunResult {
     for s in ["c14.faults.v3", "c14.faults.v5"] {
         env.require(s, "fault-strictly-inside-packet");
         env.require(s, "streaming-encoder-faults");
+        env.require(s, "streaming-encoder-transient-faults");
         env.require(s, "cut:remaining-length");
         env.require(s, "cut:string-or-binary-data");
     }
